@@ -7,6 +7,7 @@ package dicescript
 
 import (
 	"fmt"
+	"math"
 	"sort"
 	"strings"
 	"sync/atomic"
@@ -70,4 +71,142 @@ func VerifMakeDetail(src string, offset int, spans []VerifSpan, ret string) stri
 			Expr: s.Expr, Tag: s.Tag, TextOnly: s.TextOnly, ExprSuffix: s.ExprSuffix})
 	}
 	return ctx.makeDetailStr(ds)
+}
+
+func verifHex(s string) string {
+	if s == "" {
+		return "-"
+	}
+	return fmt.Sprintf("%x", s)
+}
+
+// verifDump renders code[:n] as "[ instr instr ... ]"; instr = name or name=operand.
+// operands: i<int> f<float bits> s<hex> d<begin>,<end> t<ophex>,<texthex> N (nil)
+// F( <namehex> <paramhex,..|-> <exprhex> [ body ] )   C( <exprhex> [ body ] )   X<texthex> (custom dice)
+func verifDump(code []ByteCode, n int, b *strings.Builder, depth int) {
+	b.WriteString("[")
+	for i := 0; i < n && i < len(code); i++ {
+		c := code[i]
+		name := c.CodeStringName()
+		b.WriteString(" ")
+		b.WriteString(name)
+		switch v := c.Value.(type) {
+		case nil:
+			if c.T == typeJmp || c.T == typeJe || c.T == typeJne || c.T == typeJeDup {
+				b.WriteString("=N")
+			}
+		case IntType:
+			fmt.Fprintf(b, "=i%d", int64(v))
+		case float64:
+			fmt.Fprintf(b, "=f%x", math.Float64bits(v))
+		case string:
+			b.WriteString("=s" + verifHex(v))
+		case BufferSpan:
+			fmt.Fprintf(b, "=d%d,%d", v.Begin, v.End)
+		case StInfo:
+			b.WriteString("=t" + verifHex(v.Op) + "," + verifHex(v.Text))
+		case *VMValue:
+			if fd, ok := v.ReadFunctionData(); ok && depth < 50 {
+				ps := make([]string, 0, len(fd.Params))
+				for _, p := range fd.Params {
+					ps = append(ps, verifHex(p))
+				}
+				pl := strings.Join(ps, ",")
+				if pl == "" {
+					pl = "-"
+				}
+				b.WriteString("=F( " + verifHex(fd.Name) + " " + pl + " " + verifHex(fd.Expr) + " ")
+				verifDump(fd.code, fd.codeIndex, b, depth+1)
+				b.WriteString(" )")
+			} else if cd, ok := v.ReadComputed(); ok && depth < 50 {
+				b.WriteString("=C( " + verifHex(cd.Expr) + " ")
+				verifDump(cd.code, cd.codeIndex, b, depth+1)
+				b.WriteString(" )")
+			} else {
+				b.WriteString("=?")
+			}
+		case *customDiceCompiled:
+			b.WriteString("=X" + verifHex(v.text))
+		default:
+			b.WriteString("=?")
+		}
+	}
+	b.WriteString(" ]")
+}
+
+// CodeStringName is the opcode mnemonic without its operand.
+func (code *ByteCode) CodeStringName() string {
+	c := ByteCode{T: code.T}
+	switch code.T {
+	case typePushIntNumber:
+		return "push.int"
+	case typePushFloatNumber:
+		return "push.flt"
+	case typePushString:
+		return "push.str"
+	case typePushArray:
+		return "push.arr"
+	case typePushDict:
+		return "push.dict"
+	case typePushComputed:
+		return "push.computed"
+	case typePushFunction:
+		return "push.func"
+	case typeInvoke:
+		return "invoke"
+	case typeInvokeSelf:
+		return "invoke.self"
+	case typeAttrSet:
+		return "attr.set"
+	case typeAttrGet:
+		return "attr.get"
+	case typeLoadName:
+		return "ld"
+	case typeLoadNameWithDetail:
+		return "ld.d"
+	case typeLoadNameRaw:
+		return "ld.raw"
+	case typeLoadFormatString:
+		return "ld.fs"
+	case typeStoreName:
+		return "store"
+	case typeStoreNameGlobal:
+		return "store.global"
+	case typeStoreNameLocal:
+		return "store.local"
+	case typeDetailMark:
+		return "mark.detail"
+	case typeJmp:
+		return "jmp"
+	case typeJe:
+		return "je"
+	case typeJeDup:
+		return "je.dup"
+	case typeJne:
+		return "jne"
+	case typePopN:
+		return "popn"
+	case typeStModify:
+		return "st.mod"
+	}
+	s := c.CodeString()
+	if s == "" {
+		return fmt.Sprintf("raw%d", code.T)
+	}
+	return s
+}
+
+// VerifDumpCode renders the compiled program of a context (after Parse), nested bodies included.
+func VerifDumpCode(ctx *Context) string {
+	var b strings.Builder
+	verifDump(ctx.code, ctx.codeIndex, &b, 0)
+	return b.String()
+}
+
+// VerifParsedOffset is the parser's final offset (len of the consumed text before trimming).
+func VerifParsedOffset(ctx *Context) int {
+	if ctx.parser == nil {
+		return -1
+	}
+	return ctx.parser.pt.offset
 }
